@@ -261,7 +261,7 @@ func vh_C10_L7_tail_loss_recovery_ends() {
 	a.onPTOTimer()
 	vassert(a.tlrActive, "the probe timer starts a recovery episode")
 	end := f.base + uint32(k)
-	_ = vWriterWake(a) // the waiting message (and the probe) go out
+	_ = vWriterWake(a)      // the waiting message (and the probe) go out
 	ackTo := 1 + vPick(k+1) // cumulative ack up to chunk 1..k+1
 	vassert(vDeliver(a, &chunkSelectiveAck{cumulativeTSNAck: f.base + uint32(ackTo), advertisedReceiverWindowCredit: 1 << 20}) == nil, "SACK ok")
 	if ackTo >= k {
